@@ -398,7 +398,20 @@ func newCtx(rt *rapid.T, spec Spec, tier string, tr *Trace, st *Stats) *Ctx {
 		counters: map[string]int64{}, probes: map[string]int64{}, states: map[uint64]struct{}{}}
 }
 
+// runWatchdog: a run that does not come back within VERIF_RUN_TIMEOUT_S seconds of wall-clock time (default
+// 300; a run normally takes milliseconds to a few seconds) is a call into the library that never returns
+// (an endless loop cannot be unwound): the trace is written with class "hang" and the process ends.  The
+// same watchdog runs in replay mode, so the driver's fresh-process replay decides whether it is real.
+func runWatchdog(c *Ctx) *time.Timer {
+	d := time.Duration(envInt("VERIF_RUN_TIMEOUT_S", 300)) * time.Second
+	return time.AfterFunc(d, func() {
+		FailHard(c, "hang", "hang/run-exceeded-"+strconv.Itoa(int(d/time.Second))+"s", fmt.Sprintf("the run did not return within %v of wall-clock time: some call into the library never came back (last operation index %d)", d, c.OpIndex()))
+	})
+}
+
 func runOnce(c *Ctx, run func(*Ctx)) (v *Violation) {
+	wd := runWatchdog(c)
+	defer wd.Stop()
 	defer func() {
 		if r := recover(); r != nil {
 			switch x := r.(type) {
